@@ -51,7 +51,8 @@ RULE = ("levels: all 11 documented names in 3 casings + integers -2..52 at "
         "op sequences <= 6 plus a final reopen probe. A case is non-trivial "
         "when a configuration was loaded and judged; distinct_nontrivial "
         "counts distinct (family, option/format shape, expectation, outcome) "
-        "signatures.")
+        "signatures."
+        " Formatter classes without a style parameter, nameless <logger> sections, negative sizes / counts on standard streams, quoted formats, reopenFiles() meeting a missing directory and being called while a failed factory call's exception is held.")
 LEVEL_TEXT = ("Every generated configuration is loaded for real, its "
               "factories are called and the resulting logging objects, "
               "rendered records, emitted bytes and reopen/close effects are "
